@@ -1183,10 +1183,10 @@ class EtreeElementNode(ElementNode):
             return
         elif self.value.get(XSI_NIL) and getattr(self.xsd_type.parent, 'nillable', None):
             return
-        elif self.value.text is not None:
+        elif self.value.text is not None and self.value.get(XSI_NIL) not in ('1', 'true'):
             yield from get_atomic_sequence(self.xsd_type, self.value.text, self.nsmap)
         elif self.value.get(XSI_NIL) in ('1', 'true'):
-            yield ''
+            return
         else:
             value = getattr(self.xsd_element, 'value_constraint', None)
             yield from get_atomic_sequence(self.xsd_type, value or '')
